@@ -244,3 +244,60 @@ def fractions_of(computed: ComputedData) -> List[Tuple[int, Optional[int], Fract
     for gl in computed.gain_loss_set:
         out.append((gl.taxable_event.row, gl.acquired_lot.row if gl.acquired_lot else None, F(gl.crypto_amount)))
     return out
+
+
+def run_window(
+    specs: Sequence[Dict[str, Any]],
+    schedule: Sequence[Tuple[int, str]],
+    from_date: Optional[date] = None,
+    to_date: Optional[date] = None,
+    country_code: str = "us",
+    allow_negative_balances: bool = True,
+    asset: str = "B1",
+) -> Outcome:
+    """The real pipeline under -f/-t: the dates go to the Configuration and to InputData, exactly as rp2_main + parse_ods do.
+    Non-RP2 exceptions are returned as errors too (callers judge them)."""
+    cfg = configuration(country_code, from_date or MIN_DATE, to_date or MAX_DATE, allow_negative_balances)
+    try:
+        input_data = build_input(cfg, specs, asset)
+        computed = compute_tax(cfg, engine(schedule), input_data)
+    except Exception as exc:  # pylint: disable=broad-except
+        return Outcome(None, exc, None)
+    return Outcome(computed, None, input_data)
+
+
+def yearly_lines(computed: ComputedData) -> Tuple[Dict[Tuple[int, str, str, bool], Tuple[Fraction, Fraction, Fraction, Fraction]], List[Any]]:
+    """({(year, asset, type, long?): (crypto, proceeds, cost, gain)}, duplicate keys)"""
+    lines: Dict[Tuple[int, str, str, bool], Tuple[Fraction, Fraction, Fraction, Fraction]] = {}
+    dups = []
+    for y in computed.yearly_gain_loss_list:
+        key = (y.year, y.asset, y.transaction_type.value, y.is_long_term_capital_gains)
+        if key in lines:
+            dups.append(key)
+        lines[key] = (F(y.crypto_amount), F(y.fiat_amount), F(y.fiat_cost_basis), F(y.fiat_gain_loss))
+    return lines, dups
+
+
+def detail(computed: ComputedData) -> List[Dict[str, Any]]:
+    """Plain rendering of every gain/loss fraction of a ComputedData, in its order."""
+    gls = computed.gain_loss_set
+    out = []
+    for gl in gls:
+        lot = gl.acquired_lot
+        d = {
+            "event": gl.taxable_event.row,
+            "lot": lot.row if lot else None,
+            "event_ts": gl.taxable_event.timestamp,
+            "type": gl.taxable_event.transaction_type.value,
+            "amount": F(gl.crypto_amount),
+            "proceeds": F(gl.taxable_event_fiat_amount_with_fee_fraction),
+            "cost": F(gl.fiat_cost_basis),
+            "gain": F(gl.fiat_gain),
+            "long": gl.is_long_term_capital_gains(),
+            "event_k": gls.get_taxable_event_fraction(gl) + 1,
+            "event_n": gls.get_taxable_event_number_of_fractions(gl.taxable_event),
+            "lot_k": (gls.get_acquired_lot_fraction(gl) + 1) if lot else None,
+            "lot_n": gls.get_acquired_lot_number_of_fractions(lot) if lot else None,
+        }
+        out.append(d)
+    return out
